@@ -40,6 +40,17 @@ def _unhex(h):
     return b"" if h == "-" else bytes.fromhex(h)
 
 
+def _reg_used_differs(words):
+    """reghist observation 'ok used=A,fresh=B;used=..': is some A different from its B?"""
+    if len(words) < 2:
+        return False
+    for step in words[1].split(";"):
+        used, _, fresh = step.partition(",")
+        if used[len("used="):] != fresh[len("fresh="):]:
+            return True
+    return False
+
+
 def classify(run, case, impl, model):
     op = case.split()[0]
     i, m = impl.split(), model.split()
@@ -63,6 +74,12 @@ def classify(run, case, impl, model):
         if i[1] != m[1]:
             return "history/text-differs-from-model"
         return "history/budget-differs"
+    if op == "reghist":
+        if i[0] != "ok":
+            return "registry-switch/%s" % i[0]
+        if _reg_used_differs(i):
+            return "registry-switch/used-differs-from-fresh"
+        return "registry-switch/differs-from-model"
     if op == "hostile":
         return "hostile/%s" % i[0]
     if op == "recrender":
@@ -86,6 +103,8 @@ def impl_violation(run, case, impl):
         return w in ("crash", "panic", "hang")
     if op in ("render", "history"):
         return w in ("panic", "hang")
+    if op == "reghist":
+        return w != "ok" or classify(run, case, impl, impl) == "registry-switch/used-differs-from-fresh"
     return False
 
 
@@ -114,6 +133,11 @@ def violates(run, case, impl, model):
             return True
         same = i[2].split("=")[1].split("/")
         return same[0] != same[1]            # some later Encode differed from the first or failed
+    if op == "reghist":
+        if i[0] != "ok":
+            return True
+        # an Encode on the encoder with the history differs from a fresh encoder on the same registry
+        return classify(run, case, impl, model) == "registry-switch/used-differs-from-fresh"
     if op == "hostile":
         return True                          # panic / hang / output beyond the bound
     if op == "recrender":
